@@ -366,7 +366,10 @@ def main(argv):
     # kernel-evaluated sample
     nsample = P.get("coq_sample", 200)
     step = max(1, len(cases) // nsample)
-    sample = cases[::step][:nsample]
+    # "coq_sample_maxlen" (optional, per property): very long case lines make coqc overflow its stack while
+    # parsing cases.v; they stay in the extracted-model comparison and are only left out of the kernel sample
+    maxlen = P.get("coq_sample_maxlen", 0)
+    sample = [l for l in cases[::step] if not maxlen or len(l) <= maxlen][:nsample]
     if not mism and coq_ok:
         ok, ns, sout = coq_sample_check(pid, sample, rundir)
         if not ok:
